@@ -536,7 +536,10 @@ def translate_source(src_text, filename="<src>"):
     fn = find_function(tree, "split_with_escape")
     tr = Tr(fn)
     text = tr.translate()
-    out = PRELUDE + "\n/-! ### `split_with_escape` -/\n\n" + text + "\n\nend N0.Gen.EscPy\n"
+    from harness import translate_py_esc2
+    text2, legend2 = translate_py_esc2.translate_tree(tree)  # the escaping loop of serialize_dict (Proofs/EscGenEq2.lean)
+    tr.legend.update(legend2)
+    out = PRELUDE + "\n/-! ### `split_with_escape` -/\n\n" + text + "\n" + text2 + "\n\nend N0.Gen.EscPy\n"
     if out.count("\n") > 600:
         raise TranslateError("generated text too long")
     return out, tr.legend
